@@ -302,7 +302,7 @@ func runConcurrency(rc *RunCtx) *Violation {
 	np := 1 + simrt.Choose(2)
 	for i := 0; i < np; i++ {
 		w := pickAnyParser()
-		if i == 0 && simrt.Choose(3) != 0 {
+		if i == 0 && simrt.Choose(2) == 1 {
 			w = worldHeredoc // the one definition with a cache written during lexing
 		}
 		o, variant := drawBuild(w)
@@ -355,7 +355,7 @@ func runConcurrency(rc *RunCtx) *Violation {
 		rc.probe("long sequential history (hundreds of distinct cache keys) before the concurrent phase")
 	}
 	focusDocs := make([][]string, len(parsers))
-	if simrt.Choose(3) == 1 {
+	if simrt.Choose(2) == 1 {
 		rc.probe("tasks restricted to two documents per parser (collisions on the same grammar paths)")
 		for i, sp := range parsers {
 			if sp.w.verbatim || backtrackingWorlds[sp.w.name] {
